@@ -73,6 +73,28 @@ pub fn unwrap_parts(t: &str, e: &ElemInfo) -> Option<Unwrap> {
     }
 }
 
+/// Does any tag (of another element) sit on one of the two wrapper lines of unwrap element `e`?
+/// (Such documents are outside the spaces of C11, C12, C15-C17 and C19.)
+pub fn tag_on_wrapper_line(r: &Rendered, e: &ElemInfo) -> bool {
+    let t = &r.text;
+    if unwrap_parts(t, e).is_none() {
+        return false;
+    }
+    let ls = split_lines(t);
+    let w1 = line_of(&ls, e.open.1.saturating_sub(1)) + 1;
+    let w2 = line_of(&ls, e.close.0) - 1;
+    r.elems.iter().any(|x| {
+        if x.id == e.id {
+            return false;
+        }
+        let a = line_of(&ls, x.open.0);
+        let b = line_of(&ls, x.open.1.saturating_sub(1));
+        let c = line_of(&ls, x.close.0);
+        let d = line_of(&ls, x.close.1.saturating_sub(1));
+        [w1, w2].iter().any(|w| (a..=b).contains(w) || (c..=d).contains(w))
+    })
+}
+
 /// Regions of one element: Some(vec) (possibly empty for an un-unwrappable block), or None when
 /// the geometry is outside the property's space (extent unspecified).
 pub fn regions_of(t: &str, e: &ElemInfo) -> Option<Vec<(usize, usize)>> {
@@ -207,6 +229,42 @@ pub fn c14_check(r: &Rendered, step: u8, ext: &[(usize, usize)], out: &str) -> R
         return Err("alignment leftover".into());
     }
     Ok(checked)
+}
+
+/// C14 fallback when non-whitespace characters were lost or added (no alignment): every trimmed
+/// stretch must occur verbatim in the output, in the original order.
+pub fn c14_ordered_search(r: &Rendered, step: u8, ext: &[(usize, usize)], out: &str) -> Result<usize, String> {
+    let t = &r.text;
+    let bodies = unwrapped_bodies(r, step);
+    let in_body = |p: usize| bodies.iter().any(|(a, b)| *a <= p && p < *b);
+    let mut segs: Vec<(usize, usize)> = vec![];
+    let mut cur = 0;
+    for (a, b) in ext {
+        if cur < *a {
+            segs.push((cur, *a));
+        }
+        cur = *b;
+    }
+    if cur < t.len() {
+        segs.push((cur, t.len()));
+    }
+    let mut pos = 0usize;
+    let mut n = 0;
+    for (a, b) in segs {
+        let pieces: Vec<&str> = if in_body(a) || (b > a && in_body(b - 1)) { t[a..b].split('\n').collect() } else { vec![&t[a..b]] };
+        for p in pieces {
+            let trimmed = p.trim_matches(is_ws);
+            if trimmed.is_empty() {
+                continue;
+            }
+            match out[pos..].find(trimmed) {
+                Some(i) => pos += i + trimmed.len(),
+                None => return Err(format!("stretch {:?} does not occur verbatim (in order) in the output", crate::util::trunc(trimmed, 120))),
+            }
+            n += 1;
+        }
+    }
+    Ok(n)
 }
 
 // ------------------------------------------------------------------ lines
